@@ -77,6 +77,8 @@ mut('double_output_slots', 'process.c', 'total_out_slots = 16u * num_worker;', '
 mut('parse_token_lost_on_more', 'expand.c', '''    VERIF_REACH("x.parse.more");
     parse_token = true;''', '''    VERIF_REACH("x.parse.more");''', 'C11 C09 C01', 'parser token lost when the parser runs out of input')
 mut('order_q_one_too_small', 'expand.c', 'deque_init(order_q, work_units + out_slots);', 'deque_init(order_q, work_units + out_slots - 2);', 'C11 C08', 'queue capacity off by two')
+mut('ftab_not_cleared', 'decode.c', '    memset(ds->ftab, 0, sizeof(ds->ftab));', '    ;', 'C08', 'decoder frequency table used uninitialised (heap): decisions on uninitialised memory')
+mut('cmap_not_cleared', 'encode.c', '  memset(s->cmap, 0, 256u * sizeof(bool));', '  ;', 'C08', 'encoder symbol map used uninitialised')
 mut('retrieve_fix_reverted', 'expand.c', 'if (rb->curr_pos.offset < head_offs) {\n      /* The master', 'if (0 && rb->curr_pos.offset < head_offs) {\n      /* The master', 'C10 C09', 'reverts fix 8005bac')
 mut('delta_fix_reverted', 'decode.c', '''        if (unlikely(rs->code_len[rs->j] + HI[k] > MAX_CODE_LENGTH ||
                      rs->code_len[rs->j] < MIN_CODE_LENGTH + LO[k]))
